@@ -310,11 +310,11 @@ class Walker:
                 self.on_panic(int(ws[1]), cmd_i)
                 break
             if tag == "1":
-                if int(ws[1]) == 7 and int(ws[3]) == 0:
-                    # find the deadline text of this setdl (top-level command or script action)
+                if int(ws[1]) == 7:
+                    # find the deadline text of this setdl (top-level command or script action); every setdl line advances the count
                     h = int(ws[2])
                     val = self.find_setdl_value(h, cmd_i)
-                    if h in self.timer and val is not None:
+                    if int(ws[3]) == 0 and h in self.timer and val is not None:
                         self.timer[h]["dl"] = val
                         self.timer[h]["stale_arming"] = True
                 self.on_op(ws)
@@ -459,20 +459,30 @@ class Walker:
         return self.fails
 
     def find_setdl_value(self, h, cmd_i):
-        # inside a callback/idle: look into the current script; otherwise the top-level command
+        """the deadline text of the setdl op line just seen: the n-th setdl of h in the script being run (a script may set the
+        deadline of one timer several times), or the top-level command"""
+        ctx, acts = None, None
         if self.cur is not None:
             k = self.cbcount.get(self.cur, 1) - 1
             ent = self.scr.get(self.cur, [])
             if k < len(ent):
-                for a in ent[k][2]:
-                    if a[0] == "setdl" and int(a[1]) == h:
-                        return int(a[2])
-        if self.cur_idle is not None:
+                ctx, acts = ("cb", self.cur, k), ent[k][2]
+        if acts is None and self.cur_idle is not None:
             ent = self.scr.get(IDLE_BASE + self.cur_idle, [])
             if ent:
-                for a in ent[0][2]:
-                    if a[0] == "setdl" and int(a[1]) == h:
-                        return int(a[2])
+                ctx, acts = ("idle", self.cur_idle), ent[0][2]
+        if acts is not None:
+            seen = getattr(self, "_setdl_seen", None)
+            if seen is None or seen[0] != ctx:
+                seen = (ctx, {})
+                self._setdl_seen = seen
+            n = seen[1].get(h, 0)
+            seen[1][h] = n + 1
+            vals = [int(a[2]) for a in acts if a[0] == "setdl" and int(a[1]) == h]
+            if n < len(vals):
+                return vals[n]
+            if vals:
+                return vals[-1]
         if 0 <= cmd_i < len(self.cmds):
             c = self.cmds[cmd_i]
             if c[0] == "C" and c[1] == "setdl" and int(c[2]) == h:
